@@ -14,6 +14,15 @@ type checkFn func(c *Ctx)
 var checks = map[string]checkFn{}
 
 func main() {
+	if len(os.Args) >= 2 && os.Args[1] == "gencorpus" {
+		m, err := startModel(filepath.Join(verifDir(), "build", "agemodel"))
+		if err != nil {
+			panic(err)
+		}
+		genCorpus(m)
+		m.Close()
+		return
+	}
 	if len(os.Args) < 3 || os.Args[1] != "check" {
 		fmt.Fprintln(os.Stderr, "usage: verifh check Cxx [--tier quick|thorough] [--seed N] [--coqinfo file] [--evidence file] [--model path]")
 		os.Exit(2)
